@@ -54,8 +54,12 @@ int skinny64_parallel_ecb_init(Skinny64ParallelECB_t *ecb)
     Skinny64Key_t *ctx;
     if (!ecb)
         return 0;
-    if ((ctx = calloc(1, sizeof(Skinny64Key_t))) == NULL)
+    if ((ctx = calloc(1, sizeof(Skinny64Key_t))) == NULL) {
+        /* Leave an inert object behind if the allocation failed */
+        ecb->vtable = 0;
+        ecb->ctx = 0;
         return 0;
+    }
     ecb->vtable = 0;
     ecb->ctx = ctx;
     ecb->parallel_size = 8 * SKINNY64_BLOCK_SIZE;
